@@ -149,4 +149,4 @@ package bluemonday
 
 //@ func bluemonday.linkable
 //@   modifies nothing
-//@   ensures result <==> (elementName == "a" || elementName == "area" || elementName == "base" || elementName == "link" || elementName == "blockquote" || elementName == "del" || elementName == "ins" || elementName == "q" || elementName == "audio" || elementName == "embed" || elementName == "iframe" || elementName == "img" || elementName == "input" || elementName == "script" || elementName == "track" || elementName == "video")
+//@   ensures result <==> (elementName == "a" || elementName == "area" || elementName == "base" || elementName == "link" || elementName == "blockquote" || elementName == "del" || elementName == "ins" || elementName == "q" || elementName == "audio" || elementName == "embed" || elementName == "iframe" || elementName == "img" || elementName == "input" || elementName == "script" || elementName == "source" || elementName == "track" || elementName == "video")
